@@ -237,14 +237,24 @@ def compare(acc, src, benv, origin, node=None, tag=None):
     return False
 
 
-def reuse(acc, src, benv_seq, origin, node=None):
+def reuse(acc, src, benv_seq, origin, node=None, declare=False):
     """One program per runner, evaluated against a sequence of activations (the documented way to
-    use a program): the two runners must agree at every step, not only on a program's first evaluation."""
+    use a program): the two runners must agree at every step, not only on a program's first evaluation.
+    With declare=True the environment declares every name bound anywhere in the sequence (plain, non-dotted
+    names, with the CEL type of their first binding) -- declarations live in the program's base activation."""
     c = core.celpy()
     progs = {}
+    ann = None
+    if declare:
+        ann = {}
+        for benv in benv_seq:
+            for name, mvv in (benv or {}).items():
+                cls = getattr(c.celtypes, MV.CLASS_OF.get(mvv[0], ""), None)
+                if cls is not None and "." not in name and name not in ann:
+                    ann[name] = cls
     for r in "IC":
         try:
-            env = c.Environment(runner_class=core.runner_class(r))
+            env = c.Environment(annotations=dict(ann) if ann else None, runner_class=core.runner_class(r))
             progs[r] = env.program(env.compile(src))
         except Exception:
             return
@@ -270,7 +280,7 @@ def reuse(acc, src, benv_seq, origin, node=None):
             acc.nt([src, "reuse", step, sorted(benv) if benv else []])
         if agree:
             continue
-        fresh_i, fresh_c = core.api_eval("I", src, b), core.api_eval("C", src, b)
+        fresh_i, fresh_c = core.api_eval("I", src, b, annotations=ann), core.api_eval("C", src, b, annotations=ann)
         if fresh_i == fresh_c:
             stale = "compiled" if fresh_c != oc else "interpreted"
             names_before = set().union(*[set(x or {}) for x in benv_seq[:step]]) if step else set()
@@ -278,7 +288,7 @@ def reuse(acc, src, benv_seq, origin, node=None):
             acc.violation(
                 f"program-reuse {stale}-program-outcome-depends-on-earlier-evaluations earlier-only-names={'yes' if gone else 'no'} I={diag.oclass(oi).split('@')[0]} C={diag.oclass(oc).split('@')[0]}",
                 f"runners disagree at evaluation #{step + 1} of one program for {src[:100]!r}: interpreted={diag.oclass(oi)} compiled={diag.oclass(oc)}; fresh programs agree ({diag.oclass(fresh_i)}); bindings now {sorted(benv or {})}, names bound only earlier {gone}",
-                {"src": src, "sequence": [MV.enc_env(x or {}) for x in benv_seq[: step + 1]], "origin": origin, "kind": "reuse"},
+                {"src": src, "sequence": [MV.enc_env(x or {}) for x in benv_seq[: step + 1]], "origin": origin, "kind": "reuse", "declare": declare},
             )
         else:
             if node is None:
@@ -361,6 +371,7 @@ def run(ctx):
     for i, (src, seq) in enumerate(REUSE_FIXED):
         if ctx.mine(i):
             reuse(acc, src, seq, "reuse-fixed")
+            reuse(acc, src, seq, "reuse-fixed-declared", declare=True)
 
     # 3. generated
     n = ctx.scale(9000, 480000)
@@ -386,7 +397,7 @@ def run(ctx):
         benv = g.model_env()
         compare(acc, src, benv, origin, node=node)
         if benv and j % 4 == 0:
-            reuse(acc, src, binding_sequences(rnd, benv), origin, node=node)
+            reuse(acc, src, binding_sequences(rnd, benv), origin, node=node, declare=rnd.random() < 0.5)
         if j % 997 == 0:
             acc.sample({"src": src, "bindings": MV.enc_env(benv), "origin": origin})
     acc.extra["generated_cases"] = n
@@ -396,7 +407,7 @@ def replay(case):
     if case.get("kind") == "reuse":
         core.celpy()
         acc = core.Acc()
-        reuse(acc, case["src"], [MV.dec_env(x) for x in case["sequence"]], case.get("origin", "replay"))
+        reuse(acc, case["src"], [MV.dec_env(x) for x in case["sequence"]], case.get("origin", "replay"), declare=case.get("declare", False))
         return not acc.violations, "\n".join(v["what"] for v in acc.violations) or "held"
     benv = MV.dec_env(case.get("bindings", {}))
     b = MV.cel_env(benv)
